@@ -271,7 +271,22 @@ def pairs_block(r, name, d):
     b["declarations"] = decls[:i] + [{"block": True, "declarations": copy.deepcopy(decls[i:j])}] + decls[j:]
     c = copy.deepcopy(d)
     c["declarations"] = [{"block": True, "declarations": copy.deepcopy(decls)}]
-    return [("block:transparent-some", a, b), ("block:transparent-all", copy.deepcopy(d), c)]
+    out = [("block:transparent-some", a, b), ("block:transparent-all", copy.deepcopy(d), c)]
+    # a block that carries settings, with and without an empty block nested inside it (settings reach through)
+    fld, key, val = r.choice([("options", "wrap_python", False), ("options", "wrap_fortran", False), ("options", "wrap_c", False),
+                              ("options", "F_force_wrapper", True), ("options", "debug", True), ("format", "C_result", "myrv"),
+                              ("format", "F_result", "my_rv"), ("options", "wrap_lua", False)])
+    if key == "wrap_c":
+        setting = {"options": {"wrap_c": False, "wrap_fortran": False}}
+    else:
+        setting = {fld: {key: val}}
+    e1 = copy.deepcopy(d)
+    e1["declarations"] = decls[:i] + [dict({"block": True, "declarations": copy.deepcopy(decls[i:j])}, **copy.deepcopy(setting))] + decls[j:]
+    e2 = copy.deepcopy(d)
+    e2["declarations"] = decls[:i] + [dict({"block": True, "declarations": [{"block": True, "declarations": copy.deepcopy(decls[i:j])}]},
+                                           **copy.deepcopy(setting))] + decls[j:]
+    out.append(("block:nested-inherits:%s.%s" % (fld, key), e1, e2))
+    return out
 
 
 SIB_OPTS = [("F_CFI", True), ("F_force_wrapper", True), ("C_force_wrapper", True), ("debug", True), ("literalinclude", True),
@@ -345,6 +360,7 @@ def main(rec):
             sa_["sib"] = info
             jobs.append((rel, name, sa_, spec_of(name, b)))
     links = {"input": os.path.join(common.REPO, "regression", "input")}
+    cw_list = []
     for c in corpus.configs():
         text = corpus.yaml_text(c)
         d = workloads.load_yaml(text) or {}
@@ -408,6 +424,13 @@ def main(rec):
             cw = {"name": c["name"], "files": {yrel: text}, "dirs": ["out"], "links": links, "entry": "create_wrapper",
                   "cw": {"filename": yrel, "outdir": "out", "path": ["input"]}, "monitors": []}
             jobs.append(("create_wrapper", c["name"], cl, cw))
+            # ... also when it is not the first library the process wraps (a build script calling create_wrapper twice)
+            cw_list.append(cw)
+            for prev in (cw_list[-2:-1] + [x for x in cw_list if x["name"] in ("ownership", "strings")])[:2]:
+                if prev is cw and c["name"] not in ("ownership", "strings"):
+                    continue
+                jobs.append(("create_wrapper:after-%s" % ("same-library" if prev is cw else "another-library"), c["name"], cl,
+                             {"name": c["name"], "seq": [dict(prev), dict(cw)], "monitors": [], "files": cw["files"]}))
     flat = []
     for rel, name, a, b in jobs:
         flat.append(a)
